@@ -487,6 +487,12 @@ func generateProtectedHeaders(req *signature.SignRequest, protected cose.Protect
 		if _, ok := protected[elm.Key]; ok {
 			return &signature.InvalidSignRequestError{Msg: fmt.Sprintf("%q already exists in the protected header", elm.Key)}
 		}
+		if isSystemHeader(elm.Key) {
+			// content type and crit are only written after this loop, and
+			// expiry or the other scheme's time header may be absent, so the
+			// check on the map above does not see them
+			return &signature.InvalidSignRequestError{Msg: fmt.Sprintf("%v is a header defined by the envelope specification and cannot be used as an extended attribute key", elm.Key)}
+		}
 		if elm.Critical {
 			crit = append(crit, elm.Key)
 		}
@@ -497,6 +503,41 @@ func generateProtectedHeaders(req *signature.SignRequest, protected cose.Protect
 	protected[cose.HeaderLabelCritical] = crit
 
 	return nil
+}
+
+// isSystemHeader reports whether key, given with any Go integer type or as a
+// string, is a protected header label defined by the envelope specification.
+func isSystemHeader(key any) bool {
+	switch k := key.(type) {
+	case string:
+		return k == headerLabelExpiry || k == headerLabelSigningScheme ||
+			k == headerLabelSigningTime || k == headerLabelAuthenticSigningTime
+	case int:
+		return isSystemLabel(int64(k))
+	case int8:
+		return isSystemLabel(int64(k))
+	case int16:
+		return isSystemLabel(int64(k))
+	case int32:
+		return isSystemLabel(int64(k))
+	case int64:
+		return isSystemLabel(k)
+	case uint:
+		return isSystemLabel(int64(k))
+	case uint8:
+		return isSystemLabel(int64(k))
+	case uint16:
+		return isSystemLabel(int64(k))
+	case uint32:
+		return isSystemLabel(int64(k))
+	case uint64:
+		return k <= 3 && isSystemLabel(int64(k))
+	}
+	return false
+}
+
+func isSystemLabel(label int64) bool {
+	return label == cose.HeaderLabelAlgorithm || label == cose.HeaderLabelCritical || label == cose.HeaderLabelContentType
 }
 
 // generateUnprotectedHeaders creates Unprotected Headers of the COSE envelope
